@@ -198,10 +198,13 @@ def native_check(code, em, p):
         got = em.error_probability(e, code, p)
         if not np.isclose(got, want, rtol=1e-9, atol=1e-15):
             return 'P(e) = %r but product of per-qubit channel probabilities = %r for e=%s' % (float(got), want, ''.join(map(str, bits)))
-        if want > 0:
+        with np.errstate(divide='ignore'):
             lg = em.error_probability(e, code, p, log_output=True)
+        if want > 0:
             if not np.isclose(lg, np.log(want), rtol=1e-9, atol=1e-12):
-                return 'log form %r != log(%r)' % (float(lg), want)
+                return 'log form %r != log(%r) for e=%s' % (float(lg), want, ''.join(map(str, bits)))
+        elif not (np.isneginf(lg)):
+            return 'an impossible error (probability 0) has log-probability %r instead of -inf, e=%s' % (float(lg), ''.join(map(str, bits)))
         tot += got
     if not np.isclose(tot, 1.0, atol=1e-9):
         return 'sum over 4^n errors = %r' % tot
